@@ -140,6 +140,16 @@ pub fn catalogue(kit: &c18::Kit, nonce: &str) -> Vec<Repo> {
             files.extend((1..=5).map(warn));
             Repo { name: "R10-one-error-file-among-warning-only-files", files, diff_sections: None, globs: vec![], list_only: false, cli_only: true }
         },
+        Repo {
+            // The positional argument is the plain name of a directory that exists under the root
+            // (and, with other content, under e/): a glob that matches no file, from any cwd.
+            name: "R11-argument-that-names-a-directory",
+            files: vec![("x.py".into(), rules_file("1")), ("d/y.py".into(), rules_file("2")), ("e/d/z.py".into(), rules_file("3"))],
+            diff_sections: None,
+            globs: vec!["d".into()],
+            list_only: false,
+            cli_only: true,
+        },
     ]
 }
 
@@ -337,9 +347,9 @@ pub fn run(cfg: &Cfg, sink: &Arc<Sink>) -> Report {
         std::env::set_var("BLOCKWATCH_AI_API_URL", &FakeAi::global().url);
         std::env::set_var("BLOCKWATCH_AI_API_KEY", "k");
     }
-    let mut report = Report::new("for each repository of a catalogue (10 repositories of 2–6 files: a type change whose diff has a deleted-file and a new-file section for one path, one error file among warning-only files (CLI only), a directory named like a source file, same block name modified in two files with references to each, rules with mixed severities, cross-file affects in diff mode with 3 diff sections, diff + glob, Lua + AI + sync rules, `list` with diff, one malformed rule among violations) every combination of block-map iteration order × file discovery order × order of the diff's file sections is taken, and for each every schedule of the seams (validator thread bodies, async delivery orders) is executed (E2); the canonical observable (status + sorted diagnostics / listed blocks / error) must be one single value per repository; through the real CLI every directory of each repository is used as cwd (exhaustive) and fresh processes with 1 and 16 runtime workers are repeated (sampling supplement: per-process hash seeds and thread timing are not enumerable); non-trivial = every combination");
+    let mut report = Report::new("for each repository of a catalogue (11 repositories of 2–6 files: a positional argument that is the plain name of a directory (CLI only), a type change whose diff has a deleted-file and a new-file section for one path, one error file among warning-only files (CLI only), a directory named like a source file, same block name modified in two files with references to each, rules with mixed severities, cross-file affects in diff mode with 3 diff sections, diff + glob, Lua + AI + sync rules, `list` with diff, one malformed rule among violations) every combination of block-map iteration order × file discovery order × order of the diff's file sections is taken, and for each every schedule of the seams (validator thread bodies, async delivery orders) is executed (E2); the canonical observable (status + sorted diagnostics / listed blocks / error) must be one single value per repository; through the real CLI every directory of each repository is used as cwd (exhaustive) and fresh processes with 1 and 16 runtime workers are repeated (sampling supplement: per-process hash seeds and thread timing are not enumerable); non-trivial = every combination");
     report.assume("hash maps other than the block map are only looked up or iterated into order-insensitive outputs; the fresh-process repetitions are a labelled sampling pass for them");
-    let reference = Arc::new(Mutex::new(vec![None; 10]));
+    let reference = Arc::new(Mutex::new(vec![None; 11]));
     let schedules = Arc::new(AtomicU64::new(0));
     let thorough = cfg.tier == Tier::Thorough;
     let mut cases = Vec::new();
@@ -396,7 +406,7 @@ pub fn replay(cfg: &Cfg, input: &Value, sink: &Arc<Sink>) {
         return;
     }
     // Replaying one combination needs the reference of the identity combination first.
-    let reference = Mutex::new(vec![None; 10]);
+    let reference = Mutex::new(vec![None; 11]);
     let schedules = AtomicU64::new(0);
     let repo = input["repo"].as_u64().unwrap_or(0) as usize;
     check_case(&Case { repo, map_order: 0, walk_order: 0, diff_order: 0 }, None, &reference, &schedules, sink);
